@@ -71,17 +71,16 @@ Definition spec_setenv1 (a : ast) (n v : str) : ast :=
          | None => adel (ghost a) n
          end) (acwd a) (aold a).
 
-Definition spec_export1 (fx : fixes) (a : ast) (n v : str) : ast :=
-  if fx_export fx then mkast (aset (vars a) n (v, true)) (adel (ghost a) n) (acwd a) (aold a)
-  else spec_setenv1 a n v.
+Definition spec_export1 (a : ast) (n v : str) : ast :=
+  mkast (aset (vars a) n (v, true)) (adel (ghost a) n) (acwd a) (aold a).
 
 Definition spec_unset1 (a : ast) (n : str) : ast :=
   mkast (adel (vars a) n) (adel (ghost a) n) (acwd a) (aold a).
 
 Fixpoint spec_assign (a : ast) (ps : list (str * str)) : ast :=
   match ps with [] => a | (n, v) :: r => spec_assign (spec_assign1 a n v) r end.
-Fixpoint spec_export (fx : fixes) (a : ast) (ps : list (str * str)) : ast :=
-  match ps with [] => a | (n, v) :: r => spec_export fx (spec_export1 fx a n v) r end.
+Fixpoint spec_export (a : ast) (ps : list (str * str)) : ast :=
+  match ps with [] => a | (n, v) :: r => spec_export (spec_export1 a n v) r end.
 
 (** what a child started with the per-command pairs [ps] finds under the name m *)
 Definition spec_child (a : ast) (ps : alist) (m : str) : option str :=
@@ -113,21 +112,46 @@ Fixpoint rest_after (seps : str) (k : nat) (s : option str) : option str :=
             end
   end.
 
+(** the value of IFS in effect: per-command, else the store; empty or unset = default *)
+Definition spec_ifs (a : ast) (ps : alist) : str :=
+  match aget ps s_IFS with
+  | Some x => x
+  | None => match vget a s_IFS with Some (x, _) => x | None => [] end
+  end.
 Definition spec_seps (a : ast) (ps : alist) : str :=
-  let i := match aget ps s_IFS with
-           | Some x => x
-           | None => match vget a s_IFS with Some (x, _) => x | None => [] end
-           end in
-  if is_empty i then default_seps else i.
+  if is_empty (spec_ifs a ps) then default_seps else spec_ifs a ps.
+
+(** POSIX reading (what bash does for these separators): with the default IFS a RUN of blanks
+    separates two fields and blanks at the ends of the line are dropped; with a custom IFS every
+    separator character cuts.  The last of k names gets the rest of the line verbatim (default IFS:
+    without the blanks at its ends). *)
+Fixpoint cut_runs (dflt : bool) (seps : str) (k : nat) (s : option str) : list str :=
+  match k with
+  | O => []
+  | S k' =>
+      match k' with
+      | O => [match s with Some x => if dflt then trim_seps seps x else x | None => [] end]
+      | S _ => match s with
+               | None => [] :: cut_runs dflt seps k' None
+               | Some x => let x1 := if dflt then drop_seps seps x else x in
+                           let (f, o) := break_sep seps x1 in f :: cut_runs dflt seps k' o
+               end
+      end
+  end.
 
 Definition read_names (names : list str) : list str :=
   match names with [] => [s_REPLY] | _ => names end.
 
 Definition input_line (line : str) : str := trim (line ++ [c_nl]).
 
-Definition spec_read (a : ast) (ps : alist) (names : list str) (line : str) : ast :=
+(** Before the repair of read only the weakest reading of the property text is demanded (every
+    separator character cuts, remainder verbatim: [cut_fields]); with it, the POSIX reading. *)
+Definition spec_read (fx : fixes) (a : ast) (ps : alist) (names : list str) (line : str) : ast :=
   let ns := read_names names in
-  spec_assign a (combine ns (cut_fields (spec_seps a ps) (length ns) (Some (input_line line)))).
+  spec_assign a (combine ns
+    (if fx_read fx
+     then cut_runs (is_empty (spec_ifs a ps)) (spec_seps a ps) (length ns) (Some (input_line line))
+     else cut_fields (spec_seps a ps) (length ns) (Some (input_line line)))).
 
 (* ---- cd *)
 Definition join_path (cur p : str) : str :=
@@ -177,9 +201,9 @@ Definition spec_step (fx : fixes) (w : world) (a : ast) (o : op) : ast * sout :=
   | Assign ps => (spec_assign a (map asg_pair ps), SStatus true)
   | Prefixed ps prog args =>
       (a, SChild (prog :: map snd args) (spec_child a (map asg_pair ps)) (acwd a))
-  | Export ps => (spec_export fx a (map asg_pair ps), SStatus true)
+  | Export ps => (spec_export a (map asg_pair ps), SStatus true)
   | Unset n => (spec_unset1 a n, SStatus true)
-  | Read ps names line => (spec_read a (map asg_pair ps) names line, SStatus true)
+  | Read ps names line => (spec_read fx a (map asg_pair ps) names line, SStatus true)
   | Cd arg => let (a', ok) := spec_cd w a arg in (a', SStatus ok)
   | Ref n => (a, SVal (match vget a n with Some (v, _) => Some v | None => None end))
   end.
@@ -217,9 +241,9 @@ Definition wf_op (o : op) : bool :=
 
 (* ------------------------------------------------------------------ known deviation classes *)
 Inductive kclass :=
-| KReadIfsShadowed      (* read takes IFS from the stale shell-local value an export left behind *)
-| KReadRejoined         (* the remainder is rebuilt with blanks instead of kept verbatim *)
-| KCdHomeNotExported.   (* cd without argument, HOME unset or only a shell variable *)
+| KReadIfsShadowed      (* read takes IFS from a stale shell-local value behind an exported IFS; not reachable
+                           from a fresh shell since export removes the local binding (217a8a1) *)
+| KReadRejoined.        (* the remainder is rebuilt with blanks instead of kept verbatim *)
 
 Definition known (fx : fixes) (a : ast) (o : op) : option kclass :=
   match o with
@@ -243,12 +267,6 @@ Definition known (fx : fixes) (a : ast) (o : op) : option kclass :=
                     then Some KReadRejoined else None
         | None => None
         end
-  | Cd None =>
-      if fx_cd fx then None
-      else match vget a s_HOME with
-           | Some (_, true) => None
-           | _ => Some KCdHomeNotExported
-           end
   | _ => None
   end.
 
